@@ -464,7 +464,9 @@ def check_divide(ctx, rep, rules=('S-divide', 'I-private-bump')):
         for (v, c) in p.conds:
             x = strip_upd(v)
             rel, a_, b_ = None, None, None
-            if x[0] in ('op',) and x[1] in ('gt', 'lt') and len(x) == 4:
+            if x[0] in ('pcall', 'call') and re.search(r'SweepEvent::<F>::(is_before|is_after)$', x[1]) and len(x[2]) == 2:
+                rel, a_, b_ = ('gt' if x[1].endswith('is_before') else 'lt'), x[2][0], x[2][1]
+            elif x[0] in ('op',) and x[1] in ('gt', 'lt') and len(x) == 4:
                 rel, a_, b_ = x[1], x[2], x[3]
             elif x[0] == 'op' and x[1] in ('eq', 'ne') and len(x) == 4:
                 # `a.cmp(b) == Greater` is `a > b` (events never compare Equal: O-noequal)
